@@ -498,8 +498,12 @@ where
         self: &'a mut Pin<&mut Self>,
         cx: &mut Context<'_>,
     ) -> Poll<Option<Result<(), ChannelError<C::Error>>>> {
-        while self.poll_ready(cx)?.is_pending() {
+        if self.poll_ready(cx)?.is_pending() {
+            // Flushing may free up capacity. If the transport is still not ready afterwards
+            // (readiness need not be tied to flushing), its poll_ready has registered the waker:
+            // return to the executor instead of retrying within this poll.
             ready!(self.poll_flush(cx)?);
+            ready!(self.poll_ready(cx)?);
         }
         Poll::Ready(Some(Ok(())))
     }
